@@ -13,6 +13,7 @@ from mc.runner import add_violation, h64, new_result
 PROPERTY = "C18"
 LEVEL = "exploration"
 RULE = (
+    "every expand() is followed on the same object by expand('%') and expand(): the patterns differ in the wildcard token only. "
     "IPv4: every prefix length 0..32 x every network base with octets from the boundary set (masked, de-duplicated); "
     "each produced glob pattern is turned into the exact set of dotted quads it matches (interval lists via an NFA over "
     "octet strings) and union/disjointness/non-emptiness are decided on the intervals. IPv6: every prefix length 0..128 x "
@@ -240,7 +241,17 @@ def backends():
 def impl_expand(cidr):
     from sigma.types import SigmaCIDRExpression
 
-    return SigmaCIDRExpression(cidr).expand()
+    e = SigmaCIDRExpression(cidr)
+    pats = e.expand()
+    # the same object expanded with another wildcard token, then with the default again
+    other, again = e.expand("%"), e.expand()
+    if other != [p.replace("*", "%") for p in pats] or again != pats:
+        raise ExpandDiffers(repr((pats, other, again))[:300])
+    return pats
+
+
+class ExpandDiffers(Exception):
+    """expand() of one object depends on what it was asked before"""
 
 
 def impl_convert(cidr, which):
